@@ -121,6 +121,9 @@ def cases(tier, seed):
                 out.append({'prod': 'B-md', 'shape': list(shape), 'mask': mask, 'rot': rot,
                             'obs_md': mo, 'samp_md': ms, 'header': hd,
                             'layout': lays[(len(out)) % len(lays)]})
+        for lay in lays:
+            out.append({'prod': 'B-ids', 'shape': list(shape), 'mask': mask, 'rot': rot, 'obs_style': 'edgews',
+                        'samp_style': 'edgews', 'obs_md': 'textws', 'samp_md': 'textws', 'header': 1, 'layout': lay})
         for st, mk in itertools.product(D.ID_STYLES, D.MD_KINDS):
             for lay in lays:
                 out.append({'prod': 'B-x', 'shape': list(shape), 'mask': mask, 'rot': rot,
